@@ -727,7 +727,56 @@ def rule_backend_empty(run):
     run.end()
 
 
-RULES = [rule_fdef, rule_leaf, rule_order, rule_state_check, rule_arms, rule_cleanup, rule_writeback, rule_state_root, rule_refspec_reads, rule_names, rule_assignment_siblings, rule_blocks, rule_always_locality, rule_backend_empty]
+def rule_visit_stateless(run):
+    from ..rules import roles as _r
+    _r.run_memo_rule(run, "F-VISIT.memo")   # every traversal (driver check, sensitivity, definite assignment) sees the whole statement
+
+
+def rule_definitions_are_expressions(run):
+    run.begin(
+        "C08.defs",
+        "the definite-assignment pass and the clean-ups recognise a definition by its class: every IR statement that "
+        "computes a value into a result object (constructor parameter `result`) is an ir.Expression - a value-producing "
+        "statement outside that hierarchy defines temporaries nobody tracks (read-before-write is then accepted)",
+        floor=8,
+    )
+    irr = run.idx.mod("cohdl/_core/_ir/_repr.py")
+
+    def is_expr(cname, depth=0):
+        if cname == "Expression":
+            return True
+        c = irr.classes.get(cname)
+        if c is None or depth > 8:
+            return False
+        return any(is_expr((dotted(b) or "").split(".")[-1], depth + 1) for b in c.bases)
+
+    # reviewed exception: InlineCode.result is the Python-level value the inline expression evaluates to (an object
+    # that is declared elsewhere), not a temporary computed by a statement
+    EXEMPT = {"InlineCode": "the value of an inline fragment is a declared object, nothing is computed into it"}
+    n = 0
+    for cname, c in irr.classes.items():
+        if "." in cname or cname == "Expression":
+            continue
+        init = irr.functions.get(f"{cname}.__init__")
+        if init is None:
+            continue
+        params = [a.arg for a in init.node.args.args]
+        if "result" not in params:
+            continue
+        if cname in EXEMPT:
+            run.note(f"ir.{cname}: exempt - {EXEMPT[cname]}")
+            continue
+        n += 1
+        run.ob(is_expr(cname), f"ir.{cname}", file=irr.rel, line=c.lineno, detail="is-expression", expected="subclass of ir.Expression", found="ok" if is_expr(cname) else f"bases {[src(b) for b in c.bases]}", sample=cname == "SelectWith")
+    run.end()
+
+
+def rule_index_capture(run):
+    from . import c03
+    c03.rule_index_capture(run)   # a run-time index is captured in a fresh temporary assigned in the state that uses it
+
+
+RULES = [rule_fdef, rule_leaf, rule_order, rule_state_check, rule_arms, rule_cleanup, rule_writeback, rule_state_root, rule_refspec_reads, rule_names, rule_assignment_siblings, rule_blocks, rule_always_locality, rule_backend_empty, rule_visit_stateless, rule_definitions_are_expressions, rule_index_capture]
 
 LEVEL = "other"
 EXPLANATION = (
